@@ -1295,6 +1295,10 @@ func (c *Core) performKeyUpgrades(ctx context.Context) error {
 		return fmt.Errorf("error reloading shamir kek key: %w", err)
 	}
 
+	if err := c.sealManager.performKeyUpgrades(ctx); err != nil {
+		return fmt.Errorf("error performing namespace key upgrades: %w", err)
+	}
+
 	if err := c.scheduleUpgradeCleanup(ctx); err != nil {
 		return fmt.Errorf("error scheduling upgrade cleanup: %w", err)
 	}
